@@ -49,62 +49,61 @@ def map_anchored_subgraph(
         in the subgraph and parent graph, respectively.
     """
 
-    def _fit(idx, pidx, visited_nodes=set(), visited_pnodes=set(), indent=0):
-        visited_nodes = copy.deepcopy(visited_nodes)
-        visited_nodes.add(idx)
-        visited_pnodes = copy.deepcopy(visited_pnodes)
-        visited_pnodes.add(pidx)
-
-        node_neighbors = _get_neighbors(graph, idx, visited_nodes)
-        pnode_neighbors = _get_neighbors(subgraph, pidx, visited_pnodes)
-
+    def _search(todo, mapping, used):
+        # Breadth-first backtracking search. ``mapping`` is the partial
+        # assignment subgraph node -> graph node (None = mapped to nothing),
+        # ``used`` the graph nodes already taken and ``todo`` the mapped pairs
+        # whose subgraph neighbors still have to be placed.
+        if len(todo) == 0:
+            yield mapping, used
+            return
+        (idx, pidx), todo = todo[0], todo[1:]
+        pnode_neighbors = []
+        for pnn_idx in subgraph.neighbors(pidx):
+            if pnn_idx not in mapping.keys():
+                pnode_neighbors.append((pnn_idx, subgraph.nodes[pnn_idx][SYMBOL_KEY]))
+                continue
+            nn_idx = mapping[pnn_idx]
+            if nn_idx is None:
+                continue
+            # ring closure: both ends are mapped, the bond must exist
+            if not graph.has_edge(idx, nn_idx):
+                return
+            if graph.edges[idx, nn_idx][BOND_KEY] != subgraph.edges[pidx, pnn_idx][BOND_KEY]:
+                return
+        if len(pnode_neighbors) == 0:
+            yield from _search(todo, mapping, used)
+            return
+        node_neighbors = _get_neighbors(graph, idx, used)
         nn_syms = [n[1] for n in node_neighbors]
         pnn_syms = [n[1] for n in pnode_neighbors]
-
-        is_valid = False
-        mappings = [(idx, pidx)]
-        if len(pnn_syms) == 0:
-            is_valid = True
-        else:
-            for n_mapping in mapper.permute(pnn_syms, nn_syms):
-                _is_valid = True
-                _mapping = set()
-                _vnodes = set()
-                _vpnodes = set()
-                for pnn_i, nn_i in n_mapping:
-                    pnn_idx = pnode_neighbors[pnn_i][0]
-                    if nn_i == -1:
-                        _vpnodes.add(pnn_idx)
-                        continue
-                    pnn_bond = subgraph.edges[pidx, pnn_idx][BOND_KEY]
-                    nn_idx = node_neighbors[nn_i][0]
-                    nn_bond = graph.edges[idx, nn_idx][BOND_KEY]
-                    if nn_bond == pnn_bond:
-                        r_fit, r_mapping, r_vnodes = _fit(
-                            nn_idx,
-                            pnn_idx,
-                            visited_nodes,
-                            visited_pnodes,
-                            indent=indent + 2,
-                        )
-                        if r_fit:
-                            _vnodes.update(r_vnodes[0])
-                            _vpnodes.update(r_vnodes[1])
-                            _mapping.update(r_mapping)
-                        else:
-                            _is_valid = False
-                    else:
-                        _is_valid = False
-                    if not _is_valid:
-                        break
-                if _is_valid:
-                    is_valid = True
-                    visited_nodes.update(_vnodes)
-                    visited_pnodes.update(_vpnodes)
-                    mappings.extend(_mapping)
+        for n_mapping in mapper.permute(pnn_syms, nn_syms):
+            _mapping = dict(mapping)
+            _used = set(used)
+            _todo = list(todo)
+            _is_valid = True
+            for pnn_i, nn_i in n_mapping:
+                pnn_idx = pnode_neighbors[pnn_i][0]
+                if nn_i == -1:
+                    _mapping[pnn_idx] = None
+                    continue
+                nn_idx = node_neighbors[nn_i][0]
+                pnn_bond = subgraph.edges[pidx, pnn_idx][BOND_KEY]
+                nn_bond = graph.edges[idx, nn_idx][BOND_KEY]
+                if nn_bond != pnn_bond:
+                    _is_valid = False
                     break
+                _mapping[pnn_idx] = nn_idx
+                _used.add(nn_idx)
+                _todo.append((nn_idx, pnn_idx))
+            if _is_valid:
+                yield from _search(_todo, _mapping, _used)
 
-        return is_valid, mappings, (visited_nodes, visited_pnodes)
+    def _fit(idx, pidx):
+        for _mapping, _used in _search([(idx, pidx)], {pidx: idx}, set([idx])):
+            mappings = [(n, pn) for pn, n in _mapping.items() if n is not None]
+            return True, mappings, (_used, set(_mapping.keys()))
+        return False, [(idx, pidx)], (set([idx]), set([pidx]))
 
     fit = False
     mapping = []
